@@ -28,6 +28,23 @@ Proof.
 Qed.
 Print Assumptions C08_direct_field_wins.
 
+(* 2b. ... and likewise a method declared directly on the operand's named type, for value and
+      pointer operands alike: no promoted field or method of the same name shadows it (Go requires
+      an addressable or pointer operand for a pointer-receiver method; the builder's deviation from
+      that rule is known finding C08-c and outside this statement). *)
+Theorem C08_direct_method_wins :
+  forall e name nx id i p a,
+    d_iface (getd e id) = false ->
+    find_method name 0 (d_methods (getd e id)) = Some i ->
+    s_find_method name nx 0 (d_methods (getd e id)) = Some i ->
+    (d_struct (getd e id) = true -> find_field name 0 (d_fields (getd e id)) = None) ->
+    (m_ptr (nth i (d_methods (getd e id)) (mkMethod 0 true 0 false)) = false \/ p = true \/ a = true) ->
+    gg_member e name id p = Found false id i /\ go_lookup e name nx id p a = Found false id i.
+Proof.
+  intros. split; [now apply gg_direct_method|now apply go_direct_method].
+Qed.
+Print Assumptions C08_direct_method_wins.
+
 (* 3. The full statement "the builder selects what Go's rules designate" is REFUTED on the pinned
       tree; three kernel-computed witnesses (known findings, classes 1-3). *)
 Definition ex_env : env :=
@@ -58,3 +75,11 @@ Example ex_direct_field :
   find_field 1 0 (d_fields (getd e 0)) = Some 0 /\ s_find_field 1 true 0 (d_fields (getd e 0)) = Some 0 /\
   gg_member e 1 0 false = Found true 0 0 /\ go_lookup e 1 true 0 false true = Found true 0 0.
 Proof. vm_compute. repeat split. Qed.
+
+(* T (type 1) declares method M (name 2) and embeds E (type 0), which has a field named M:
+   for the operand *T both procedures select T's own method *)
+Example ex_direct_method :
+  let e := [mkDecl true false [mkField 2 true 0 false (FBasic 17)] [];
+            mkDecl true false [mkField 9 true 0 true (FNamed 0)] [mkMethod 2 true 0 false]]%N in
+  gg_member e 2 1 true = Found false 1 0 /\ go_lookup e 2 true 1 true false = Found false 1 0.
+Proof. vm_compute. split; reflexivity. Qed.
